@@ -146,6 +146,9 @@ Transparent == NoData =>
    /\ \A k \in 1..Len(calls) : calls[k][1] = "integrate"
    /\ \A k \in 1..Len(incEst) : incEst[k] = 0
 
+\* with Progress and IterBound this is termination without a liveness check: no stuck state before done
+NotStuck == ~done => ENABLED NextLoop
+
 \* termination as an action property (a state constraint cannot hide a non-progress cycle here)
 Progress == [][ /\ (Advance => T' > T)
                 /\ (ProcessMeas => mi' > mi) ]_vars
